@@ -52,10 +52,10 @@ Theorem C09_unguarded_ponder_races :
 Proof. exact unguarded_ponder_races. Qed.
 Print Assumptions C09_unguarded_ponder_races.
 
-(** Summary (strongest statement proved): in every schedule of the model from the initial state,
-    two conflicting accesses to ANY modelled location that are not ordered by happens-before can
-    only be an access to the option values or the table geometry / generation by a HELPER thread
-    against an access of another thread *)
+(** intermediate summary (lock discipline + atomics + UCI/engine hand-off): two conflicting
+    accesses to a modelled location that are not ordered by happens-before could only be an access
+    to the option values or the table geometry / generation by a HELPER thread against an access
+    of another thread - the case C09_helper_reads_ordered settles *)
 Theorem C09_model_drf_partial : forall N parent ls tr i j a b,
   trace_of N parent true xinit ls = Some tr ->
   i < j -> at_ tr i = Some a -> at_ tr j = Some b -> conflictb a b = true -> ~ hb tr i j ->
@@ -64,13 +64,12 @@ Theorem C09_model_drf_partial : forall N parent ls tr i j a b,
 Proof. exact model_drf_partial. Qed.
 Print Assumptions C09_model_drf_partial.
 
-(** the helpers' reads: in the single-level communicator tree (every helper thread a child of the
-    engine thread - the tree WorkerThread::createWorkers (maxChildren = 4) builds for Threads <= 5,
-    i.e. up to 4 helper threads), for every number of helpers and every schedule, every access of a helper thread to the option values / table
-    geometry and every conflicting access of another thread are ordered by happens-before:
-    write -> engine thread -> START_SEARCH through the helper's mailbox mutex -> read, and
-    read -> STOP_ACK through the engine thread's mailbox mutex -> barrier -> write *)
-Theorem C09_helper_reads_ordered : forall N parent, (forall c, helper N c -> parent c = Some 0) ->
+(** the helpers' reads: for every number of helpers, every communicator tree and every schedule,
+    every access of a helper thread to the option values / table geometry and every conflicting
+    access of another thread are ordered by happens-before:
+    write -> engine thread -> START_SEARCH down the tree through the mailbox mutexes -> read, and
+    read -> STOP_ACK up the tree through the mailbox mutexes -> barrier -> write *)
+Theorem C09_helper_reads_ordered : forall N parent, WorkersInv.tree_ok N parent ->
   forall ls tr i j a b,
   trace_of N parent true xinit ls = Some tr ->
   i < j -> at_ tr i = Some a -> at_ tr j = Some b -> conflictb a b = true ->
@@ -78,26 +77,22 @@ Theorem C09_helper_reads_ordered : forall N parent, (forall c, helper N c -> par
 Proof. exact helper_reads_ordered. Qed.
 Print Assumptions C09_helper_reads_ordered.
 
-(** ... hence no data race at all on the modelled locations *)
-Theorem C09_model_drf_single_level : forall N parent, (forall c, helper N c -> parent c = Some 0) ->
+(** ... hence: the model has no data race on ANY modelled location, for every number of helper
+    threads, every communicator tree createWorkers can build and every schedule (from the
+    initial state, with go / go ponder waiting for pending options as the code does) *)
+Theorem C09_model_drf : forall N parent, WorkersInv.tree_ok N parent ->
   forall ls tr, trace_of N parent true xinit ls = Some tr -> ~ race tr.
-Proof. exact model_drf_flat. Qed.
-Print Assumptions C09_model_drf_single_level.
+Proof. exact model_drf. Qed.
+Print Assumptions C09_model_drf.
 
 (** non-vacuity: a schedule in which a helper reads between writes of both writers *)
 Theorem C09_helper_reads_example :
-  (forall c, helper 1 c -> par1 c = Some 0) /\
+  WorkersInv.tree_ok 1 par1 /\
   exists tr, trace_of 1 par1 true xinit ex_read_sched = Some tr /\
     nth_error tr 17 = Some (Acc 0 LTT true Plain) /\
     nth_error tr 31 = Some (Acc 2 LTT true Plain) /\
     nth_error tr 80 = Some (Acc 1 LTT false Plain) /\
     nth_error tr 130 = Some (Acc 0 LTT true Plain) /\
     raceb tr = false.
-Proof. split; [exact par1_flat | exact ex_read_trace]. Qed.
+Proof. split; [exact par1_tree | exact ex_read_trace]. Qed.
 Print Assumptions C09_helper_reads_example.
-
-(** full statement for the modelled locations and EVERY communicator tree (not proved for trees
-    of depth >= 2: there the ordering goes through the START / STOP_ACK message edges of several
-    hops; it is checked on recorded traces) *)
-Definition C09_model_drf_statement : Prop :=
-  forall N parent ls tr, WorkersInv.tree_ok N parent -> trace_of N parent true xinit ls = Some tr -> ~ race tr.
